@@ -1088,9 +1088,22 @@ impl Scaler for HarfBuzzScaler<'_> {
             .contours
             .get_mut(contours_start..contours_end)
             .ok_or(InsufficientMemory)?;
-        // Read the contour end points.
+        // Read the contour end points, ensuring that they are properly
+        // ordered (as the FreeType style scaler does): only the last one is
+        // bounded by the point count, and all of them are shifted by the
+        // number of points loaded so far when this is not the first
+        // component.
+        let mut last_end_pt = 0;
         for (end_pt, contour) in contour_end_pts.iter().zip(contours.iter_mut()) {
-            *contour = end_pt.get();
+            let end_pt = end_pt.get();
+            if end_pt < last_end_pt {
+                return Err(ReadError::MalformedData(
+                    "unordered contour end points in TrueType glyph",
+                )
+                .into());
+            }
+            last_end_pt = end_pt;
+            *contour = end_pt;
         }
         // Adjust the running point/contour total counts
         self.point_count += point_count;
@@ -1468,6 +1481,67 @@ mod tests {
         let outline = outlines.outline(gid).unwrap();
         assert!(outline.glyph.is_none());
         assert_eq!(outline.points, PHANTOM_POINT_COUNT);
+    }
+
+    /// The HarfBuzz style scaler shifts the contour end points of a non-first
+    /// component by the number of points loaded so far. A non-last end point
+    /// larger than the glyph's point count (only the last one determines the
+    /// point count) must be rejected instead of overflowing that shift.
+    #[test]
+    fn harfbuzz_scaler_unordered_end_points_in_second_component() {
+        let font = FontRef::new(font_test_data::GLYF_COMPONENTS).unwrap();
+        let mut outlines = Outlines::new(&font).unwrap();
+        let mut glyf_buf = font_test_data::bebuffer::BeBuffer::new();
+        // glyph 0: two contours, end points [65535, 3] => 4 points
+        glyf_buf = glyf_buf.push(2u16);
+        glyf_buf = glyf_buf.extend([0i16; 4]); // bbox
+        glyf_buf = glyf_buf.extend([65535u16, 3u16]); // contour ends
+        glyf_buf = glyf_buf.push(0u16); // instruction count
+        for _ in 0..4 {
+            glyf_buf =
+                glyf_buf.push(SimpleGlyphFlags::X_SHORT_VECTOR | SimpleGlyphFlags::Y_SHORT_VECTOR);
+        }
+        glyf_buf = glyf_buf.extend([0u8; 8]); // x/y coords
+        let glyph0_end = glyf_buf.len();
+        // glyph 1: one point
+        glyf_buf = glyf_buf.push(1u16);
+        glyf_buf = glyf_buf.extend([0i16; 4]);
+        glyf_buf = glyf_buf.push(0u16); // contour end
+        glyf_buf = glyf_buf.push(0u16); // instruction count
+        glyf_buf =
+            glyf_buf.push(SimpleGlyphFlags::X_SHORT_VECTOR | SimpleGlyphFlags::Y_SHORT_VECTOR);
+        glyf_buf = glyf_buf.extend([0u8; 2]);
+        glyf_buf = glyf_buf.push(0u8); // pad
+        let glyph1_end = glyf_buf.len();
+        // glyph 2: composite of glyph 1 then glyph 0
+        glyf_buf = glyf_buf.push(-1i16);
+        glyf_buf = glyf_buf.extend([0i16; 4]);
+        for (i, gid) in [1u16, 0].into_iter().enumerate() {
+            let flags = if i == 0 {
+                CompositeGlyphFlags::MORE_COMPONENTS | CompositeGlyphFlags::ARGS_ARE_XY_VALUES
+            } else {
+                CompositeGlyphFlags::ARGS_ARE_XY_VALUES
+            };
+            glyf_buf = glyf_buf.push(flags);
+            glyf_buf = glyf_buf.push(gid);
+            glyf_buf = glyf_buf.extend([0u8; 2]);
+        }
+        let glyph2_end = glyf_buf.len();
+        outlines.glyf = Glyf::read(glyf_buf.data().into()).unwrap();
+        let mut loca_buf = font_test_data::bebuffer::BeBuffer::new();
+        loca_buf = loca_buf.extend([
+            0u32,
+            glyph0_end as u32,
+            glyph1_end as u32,
+            glyph2_end as u32,
+        ]);
+        outlines.loca = Loca::read(loca_buf.data().into(), true).unwrap();
+        let gid = GlyphId::new(2);
+        let outline = outlines.outline(gid).unwrap();
+        let mut mem_buf = vec![0u8; outline.required_buffer_size(Default::default())];
+        let scaler = HarfBuzzScaler::unhinted(&outlines, &outline, &mut mem_buf, None, &[]).unwrap();
+        let glyph = outlines.loca.get_glyf(gid, &outlines.glyf).unwrap();
+        assert!(scaler.scale(&glyph, gid).is_err());
     }
 
     // fuzzer overflow for composite glyph with too many total points
